@@ -261,7 +261,12 @@ class NativeFilestore(VirtualFilestore):
             return FilestoreResponseStatusCode.RENAME_OLD_FILE_DOES_NOT_EXIST
         if new_file.exists():
             return FilestoreResponseStatusCode.RENAME_NEW_FILE_DOES_EXIST
-        old_file.rename(new_file)
+        try:
+            old_file.rename(new_file)
+        except OSError:
+            # For example a new name inside a directory which does not exist.
+            _LOGGER.exception(f"Renaming {old_file} to {new_file} failed")
+            return FilestoreResponseStatusCode.RENAME_NOT_PERFORMED
         return FilestoreResponseStatusCode.RENAME_SUCCESS
 
     def replace_file(self, replaced_file: Path, source_file: Path) -> FilestoreResponseStatusCode:
@@ -298,7 +303,12 @@ class NativeFilestore(VirtualFilestore):
         if dir_name.exists():
             # It does not really matter if the existing structure is a file or a directory
             return FilestoreResponseStatusCode.CREATE_DIR_CAN_NOT_BE_CREATED
-        os.mkdir(dir_name)
+        try:
+            os.mkdir(dir_name)
+        except OSError:
+            # For example a parent directory which does not exist.
+            _LOGGER.exception(f"Creating directory {dir_name} failed")
+            return FilestoreResponseStatusCode.CREATE_DIR_CAN_NOT_BE_CREATED
         return FilestoreResponseStatusCode.CREATE_DIR_SUCCESS
 
     def list_directory(
